@@ -330,7 +330,7 @@ func (s *session) runV1(name string, op J) J {
 		cl.GetNativeInterpreter().AddUpdater(str(op, "table"), str(op, "expr"), func(item, attrs map[string]*mt.Item) {
 			s.fired = append(s.fired, id)
 			for k, v := range set {
-				if k != "@poke" && k != "@pokes" {
+				if k != "@poke" && k != "@pokes" && k != "@drop" {
 					item[k] = v
 				}
 			}
@@ -351,6 +351,10 @@ func (s *session) runV1(name string, op J) J {
 						v.M["poked"] = &mt.Item{S: sp("p")}
 					}
 				}
+			}
+			if d := set["@drop"]; d != nil && d.S != nil {
+				// the updater deletes an attribute
+				delete(item, *d.S)
 			}
 		})
 		return J{"r": "ok"}
